@@ -156,6 +156,13 @@ archive_write_ar_header(struct archive_write *a, struct archive_entry *entry)
 	append_fn = 0;
 	ar = (struct ar_w *)a->format_data;
 	ar->is_strtab = 0;
+	/*
+	 * Nothing of this entry has been written yet: if the header is
+	 * refused below, finish_entry must not pad for the previous member
+	 * a second time.
+	 */
+	ar->entry_bytes_remaining = 0;
+	ar->entry_padding = 0;
 	filename = NULL;
 	size = archive_entry_size(entry);
 
